@@ -2,12 +2,13 @@
 """Import seeded changes produced by an independent sub-agent: /var/tmp/seed/<PID>/s<PID>_<i>.{patch,json}, _demo.cpp
 -> /verif/seeded/<PID>-<i>/{patch.diff, demo.cpp, meta.json}.  usage: seed_import.py PID"""
 import json
+import os
 import shutil
 import sys
 from pathlib import Path
 
 pid = sys.argv[1]
-src = Path("/var/tmp/seed") / pid
+src = Path(os.environ.get("SEED_ROOT", "/var/tmp/seed")) / pid   # round 2: SEED_ROOT=/var/tmp/seed2
 dst_root = Path(__file__).resolve().parent.parent / "seeded"
 for p in sorted(src.glob("s%s_*.patch" % pid)):
     i = p.stem.split("_")[-1]
